@@ -30,13 +30,14 @@ def run_e2e(args):
             for iface in I.IFACES:
                 if not I.supports(iface, a["fmt"], a["comp"]):
                     continue
-                for shuffle, T in a["configs"]:
+                for ci, (shuffle, T) in enumerate(a["configs"]):
                     take = a["m"] * N + a["r"]
+                    spell = [True, "default", "np", "one"][(ci + a.get("spell", 0) + I.IFACES.index(iface)) % 4]
                     try:
-                        got, _ = I.run_iface(ds, iface, split, shuffle=shuffle, T=T, repeat=True, take=take)
-                        rec["runs"].append({"iface": iface, "split": split, "shuffle": shuffle, "T": T, "take": take, "got": got})
+                        got, _ = I.run_iface(ds, iface, split, shuffle=shuffle, T=T, repeat=spell, take=take)
+                        rec["runs"].append({"iface": iface, "split": split, "shuffle": shuffle, "T": T, "take": take, "got": got, "spell": str(spell)})
                     except Exception as e:  # noqa: BLE001
-                        rec["runs"].append({"iface": iface, "split": split, "shuffle": shuffle, "T": T, "take": take,
+                        rec["runs"].append({"iface": iface, "split": split, "shuffle": shuffle, "T": T, "take": take, "spell": str(spell),
                                             "error": f"{type(e).__name__}: {str(e)[:200]}"})
         # tf.data with batching: the stream of examples inside the batches (batch size not dividing the split)
         for split in [s for s in written if written[s]]:
@@ -127,7 +128,7 @@ def run(ctx):
             plan.append({"sub": "x", "writes": [(0, eps + 1)]})
         configs = [(0, 1), (0, 3), (2, 2), (1000, 3)] if ctx.thorough else [(0, 1 + i % 3), (2 + i, 2)]
         cases.append({"root": str(ctx.scratch / f"c19_{i}"), "fmt": fmt, "comp": comp, "eps": eps, "plan": plan, "configs": configs,
-                      "m": ctx.pick(3, 6), "r": rng.choice([0, 1, 2]),
+                      "m": ctx.pick(3, 6), "r": rng.choice([0, 1, 2]), "spell": i,
                       # (no checksum algorithm at all is a legal configuration; every other case continues writing through the handle that iterated)
                       "hashes": [None, [], ["sha256"]][i % 3], "append": [0, 3][i % 2] if i % 3 != 1 else 3})
     recs = []
@@ -143,7 +144,7 @@ def run(ctx):
             split = run_["split"]
             onepass = run_.get("onepass") or [x for sh in r["shards"][split] for x in sh]
             N = len(onepass)
-            sig = {"kind": "repeat", "iface": run_["iface"], "shuffled": run_["shuffle"] > 0, "interleaved": bool(run_.get("interleaved")), "batched": bool(run_.get("batch")),
+            sig = {"kind": "repeat", "iface": run_["iface"], "spelling": run_.get("spell", "True"), "shuffled": run_["shuffle"] > 0, "interleaved": bool(run_.get("interleaved")), "batched": bool(run_.get("batch")),
                    "after_append": bool(run_.get("after_append"))}
             if "error" in run_:
                 ctx.report(dict(sig, kind="repeat-error"), f"{run_['iface']} repeat=True raised {run_['error']}", {"case": r["case"], "run": run_}); continue
@@ -167,9 +168,10 @@ def run(ctx):
             distinct.add((r["case"]["fmt"], run_["iface"], run_["shuffle"] > 0, min(run_["T"], 3), N > r["case"]["eps"]))
     ctx.cov.update({
         "evaluations": nruns, "distinct_nontrivial": len(distinct), "traces_validated_against_impl": nruns,
-        "rule": "datasets with 2-3 splits (flat and nested shard lists); every interface with repeat=True (tf.data also batched with a batch size that does not divide the split); prefix of m*N+r elements (m=3 quick, 6 thorough); "
+        "rule": "datasets with 2-3 splits (flat and nested shard lists); every interface with repeat enabled — spelled True, left at its default, numpy.True_, 1 — (tf.data also batched with a batch size that does not divide the split); prefix of m*N+r elements (m=3 quick, 6 thorough); "
                 "unshuffled prefix compared with the model's stream formula onepass[k mod N]; distinct = (format, interface, shuffled?, T class, multi-shard?)",
         "samples": [{"case": r["case"], "run": r["runs"][0]} for r in recs[:2]],
         "input_distribution": {"by_iface": collections.Counter(x["iface"] for r in recs for x in r["runs"]),
-                               "shuffled": sum(x["shuffle"] > 0 for r in recs for x in r["runs"])},
+                               "shuffled": sum(x["shuffle"] > 0 for r in recs for x in r["runs"]),
+                               "repeat_spelling": collections.Counter(x.get("spell", "True") for r in recs for x in r["runs"])},
     })
